@@ -1235,6 +1235,60 @@ theorem c17_end_to_end_mc (mode : Mode) (fs : P → Option (File N D V)) (bs : N
     · exact List.mem_append_left _ h
     · exact List.mem_append_right _ h
 
+/-- `load_and_prepare_data` depends on the loader only through the two calls it makes -/
+theorem C17.loadAndPrepare_congr (st : Stages) (l₁ l₂ : List P → Opts N D → Except Err (Arr N D V))
+    (prep : Option (Arr N D V) × Option (Arr N D V) → Except Err (Option (Arr N D V) × Option (Arr N D V)))
+    (c : DsCfg N D) (expPaths mcPaths : List P) (livetime : Bool)
+    (he : l₁ expPaths ⟨some (keepExp st c), c.conv, excOrig c.expRen c.exc⟩ =
+          l₂ expPaths ⟨some (keepExp st c), c.conv, excOrig c.expRen c.exc⟩)
+    (hm : l₁ mcPaths ⟨some (keepMc st c), c.conv, excOrig c.mcRen c.exc⟩ =
+          l₂ mcPaths ⟨some (keepMc st c), c.conv, excOrig c.mcRen c.exc⟩) :
+    loadAndPrepare st l₁ prep c expPaths mcPaths livetime = loadAndPrepare st l₂ prep c expPaths mcPaths livetime := by
+  simp only [loadAndPrepare, loadAndPrepareWith, loadData, loadPart, he, hm]
+
+/-- **Data-set level: both efficiency modes give the same prepared data** (any preparation function,
+any stage tables and dictionaries, errors included), under the agreement-domain guard on the
+files of both halves. -/
+theorem c17_dataset_mode_independent (fs : P → Option (File N D V)) (bs : Nat) (hbs : 0 < bs) (st : Stages)
+    (prep : Option (Arr N D V) × Option (Arr N D V) → Except Err (Option (Arr N D V) × Option (Arr N D V)))
+    (c : DsCfg N D) (expPaths mcPaths : List P) (livetime : Bool)
+    (he : ∀ p ∈ expPaths, ∀ f, fs p = some f → WF f ∧
+      CastOK cast castCopy ⟨some (keepExp st c), c.conv, excOrig c.expRen c.exc⟩ f ∧
+      CastOK cast castAssign ⟨some (keepExp st c), c.conv, excOrig c.expRen c.exc⟩ f)
+    (hm : ∀ p ∈ mcPaths, ∀ f, fs p = some f → WF f ∧
+      CastOK cast castCopy ⟨some (keepMc st c), c.conv, excOrig c.mcRen c.exc⟩ f ∧
+      CastOK cast castAssign ⟨some (keepMc st c), c.conv, excOrig c.mcRen c.exc⟩ f) :
+    loadAndPrepare st (npyLoad castCopy castAssign cast promote .memory fs bs) prep c expPaths mcPaths livetime =
+      loadAndPrepare st (npyLoad castCopy castAssign cast promote .time fs bs) prep c expPaths mcPaths livetime :=
+  C17.loadAndPrepare_congr st _ _ prep c expPaths mcPaths livetime
+    (c17_memory_eq_time_all_files castCopy castAssign cast promote fs bs hbs expPaths _ he)
+    (c17_memory_eq_time_all_files castCopy castAssign cast promote fs bs hbs mcPaths _ hm)
+
+/-- **Data-set level: parquet files give the same prepared data as npy files** holding the same
+tables (experimental data only; any preparation function; both modes of the npy loader). -/
+theorem c17_dataset_format_independent (mode : Mode) (fs : P → Option (File N D V)) (bs : Nat) (hbs : 0 < bs)
+    (st : Stages)
+    (prep : Option (Arr N D V) × Option (Arr N D V) → Except Err (Option (Arr N D V) × Option (Arr N D V)))
+    (c : DsCfg N D) (sch : List (N × D)) (first : P × File N D V) (rest : List (P × File N D V)) (livetime : Bool)
+    (hnd : (sch.map (·.1)).Nodup) (hcast : ∀ d v, cast d d v = v) (hprom : ∀ d, promote d d = d)
+    (hfiles : ∀ qf ∈ first :: rest, C17.GoodFile castCopy castAssign cast fs
+      ⟨some (keepExp st c), c.conv, excOrig c.expRen c.exc⟩ sch qf)
+    (hall : CastOK cast castCopy ⟨some (keepExp st c), c.conv, excOrig c.expRen c.exc⟩
+      ⟨sch, ((first :: rest).map (·.2.rows)).flatten⟩) :
+    loadAndPrepare st (parquetLoad castCopy fs) prep c ((first :: rest).map (·.1)) [] livetime =
+      loadAndPrepare st (npyLoad castCopy castAssign cast promote mode fs bs) prep c
+        ((first :: rest).map (·.1)) [] livetime := by
+  simp only [loadAndPrepare, loadAndPrepareWith, loadData]
+  have hexp : loadPart (parquetLoad castCopy fs) ((first :: rest).map (·.1)) (keepExp st c) c.expRen c =
+      loadPart (npyLoad castCopy castAssign cast promote mode fs bs) ((first :: rest).map (·.1)) (keepExp st c)
+        c.expRen c := by
+    unfold loadPart
+    rw [c17_parquet_eq_npy castCopy castAssign cast promote mode fs bs hbs _ sch first rest hnd hcast hprom
+      hfiles hall]
+  have hmc : loadPart (parquetLoad castCopy fs) ([] : List P) (keepMc st c) c.mcRen c =
+      loadPart (npyLoad castCopy castAssign cast promote mode fs bs) ([] : List P) (keepMc st c) c.mcRen c := rfl
+  rw [hexp, hmc]
+
 /-- non-vacuity of `c17_end_to_end`: configuration table {0 ↦ ANALYSIS_EXP}, dictionary {5 → 0}, two
 files with the fields 5 and 9, memory-efficient mode with a re-open block of 2 rows: field 0 holds
 column 5 of all three rows in file order, field 9 is not loaded. -/
